@@ -1,10 +1,126 @@
-(* C17 - provisional: statements are added as the proofs land. *)
-From LV Require Import Base.Buf Vercmp.VercmpModel.
+(* C17 - spiftool_version_compare is a safe, deterministic, antisymmetric order.
+   Statements only, each closed by `exact`, with Print Assumptions; then examples.
+   `vercmp` is the model of the repaired function (Vercmp/VercmpModel.v): its two arguments
+   are the texts of two C strings (lists of non-zero bytes), its scratch buffers are cell
+   lists that start uninitialised, its result is `Ok c` or `Fault f`. *)
+From LV Require Import Base.Buf Vercmp.VercmpModel Vercmp.VercmpProofs Vercmp.VercmpOrder.
 Local Open Scope Z_scope.
 
-Example C17_ex_pre_below_bare : vercmp [49; 46; 48; 112; 114; 101; 50] [49; 46; 48] = Ok Lt.
+(* memory safety and termination: no Fault of any kind (no access outside the two scratch
+   buffers, no read of an uninitialised cell, no fuel exhaustion) for all strings, all run lengths *)
+Theorem C17_vercmp_safe : forall a b : list Z,
+  Forall nz_byte a -> Forall nz_byte b -> exists c, vercmp a b = Ok c.
+Proof. exact vercmp_safe. Qed.
+Print Assumptions C17_vercmp_safe.
+
+(* determinism: started on ANY content of the two scratch buffers (in place of the
+   uninitialised cells) the loop returns the same value *)
+Theorem C17_vercmp_deterministic : forall (a b : list Z) (b1 b2 : buf),
+  Forall nz_byte a -> Forall nz_byte b -> length b1 = vc_bufsz1 -> length b2 = vc_bufsz2 ->
+  vc_loop true true (S (length a)) a b b1 b2 = vercmp a b.
+Proof. exact vercmp_deterministic. Qed.
+Print Assumptions C17_vercmp_deterministic.
+
+Theorem C17_vercmp_refl : forall a : list Z, Forall nz_byte a -> vercmp a a = Ok Eq.
+Proof. exact vercmp_refl. Qed.
+Print Assumptions C17_vercmp_refl.
+
+Theorem C17_vercmp_antisym : forall a b : list Z, Forall nz_byte a -> Forall nz_byte b ->
+  exists c, vercmp a b = Ok c /\ vercmp b a = Ok (CompOpp c).
+Proof. exact vercmp_antisym. Qed.
+Print Assumptions C17_vercmp_antisym.
+
+(* dotted numeric versions: components compared by value (any number of digits, leading
+   zeros ignored), first difference decides, a proper prefix is smaller *)
+Theorem C17_numeric_order : forall ds1 ds2 : list (list Z),
+  Forall is_digits ds1 -> Forall is_digits ds2 ->
+  vercmp (dotted ds1) (dotted ds2) = Ok (lex_nums (map dval ds1) (map dval ds2)).
+Proof. exact vercmp_numeric_order. Qed.
+Print Assumptions C17_numeric_order.
+
+Theorem C17_longer_numeric_wins : forall ds more : list (list Z),
+  Forall is_digits ds -> Forall is_digits more -> more <> [] ->
+  vercmp (dotted ds) (dotted (ds ++ more)) = Ok Lt /\ vercmp (dotted (ds ++ more)) (dotted ds) = Ok Gt.
+Proof. exact vercmp_longer_numeric_wins. Qed.
+Print Assumptions C17_longer_numeric_wins.
+
+(* any version V against V followed by a suffix t that starts a new run: below V exactly when
+   t begins (case-insensitively) with snap, pre, alpha or beta; above otherwise *)
+Theorem C17_suffix_rule : forall V t : list Z,
+  Forall nz_byte V -> Forall nz_byte t -> t <> [] -> sep V t ->
+  vercmp (V ++ t) V = Ok (if begins_below t then Lt else Gt) /\
+  vercmp V (V ++ t) = Ok (if begins_below t then Gt else Lt).
+Proof. exact vercmp_suffix_rule. Qed.
+Print Assumptions C17_suffix_rule.
+
+(* ... in particular a dotted numeric version with a word suffix (and anything after the word) *)
+Theorem C17_wf_suffix : forall (ds : list (list Z)) (w X : list Z),
+  ds <> [] -> Forall is_digits ds -> is_word w -> noalpha X -> Forall nz_byte X ->
+  vercmp (dotted ds ++ w ++ X) (dotted ds) = Ok (if begins_below (w ++ X) then Lt else Gt) /\
+  vercmp (dotted ds) (dotted ds ++ w ++ X) = Ok (if begins_below (w ++ X) then Gt else Lt).
+Proof. exact vercmp_wf_suffix. Qed.
+Print Assumptions C17_wf_suffix.
+
+(* snap < pre < alpha < beta < rc (positions 0..4 of prerelease_words), in any letter case,
+   after the same numeric version, whatever follows the words *)
+Theorem C17_wf_prerelease_order : forall (ds : list (list Z)) (w1 w2 X1 X2 : list Z) (i j : nat),
+  ds <> [] -> Forall is_digits ds ->
+  nth_error prerelease_words i = Some (map tolower w1) ->
+  nth_error prerelease_words j = Some (map tolower w2) -> i <> j ->
+  noalpha X1 -> noalpha X2 -> Forall nz_byte X1 -> Forall nz_byte X2 ->
+  vercmp (dotted ds ++ w1 ++ X1) (dotted ds ++ w2 ++ X2) = Ok (i ?= j)%nat.
+Proof. exact vercmp_wf_prerelease. Qed.
+Print Assumptions C17_wf_prerelease_order.
+
+(* numbers after any common prefix that ends at a run boundary (a later component, the number
+   of a suffix): by value; equal values hand over to what follows *)
+Theorem C17_number_after_prefix : forall V d1 d2 X1 X2 : list Z,
+  Forall nz_byte V -> Forall nz_byte X1 -> Forall nz_byte X2 ->
+  is_digits d1 -> is_digits d2 -> nodigit X1 -> nodigit X2 -> sep V d1 -> sep V d2 ->
+  exists r, vercmp X1 X2 = Ok r /\
+    vercmp (V ++ d1 ++ X1) (V ++ d2 ++ X2) = Ok (match dval d1 ?= dval d2 with Eq => r | c => c end).
+Proof. exact vercmp_number_after_prefix. Qed.
+Print Assumptions C17_number_after_prefix.
+
+(* ---- the unrepaired behaviours are faults of the model (so the theorems above have teeth) ---- *)
+(* original run copies (no bound): 128 letters overflow the scratch buffer *)
+Theorem C17_orig_copy_refuted : exists a b : list Z,
+  Forall nz_byte a /\ Forall nz_byte b /\ vercmp_gen false true a b = Fault OOB_write.
+Proof.
+  exists (repeat 97 128), (repeat 97 128). split; [|split].
+  - apply Forall_forall. intros x Hx. apply repeat_spec in Hx. subst. unfold nz_byte. lia.
+  - apply Forall_forall. intros x Hx. apply repeat_spec in Hx. subst. unfold nz_byte. lia.
+  - vm_compute. reflexivity.
+Qed.
+Print Assumptions C17_orig_copy_refuted.
+
+(* original class-mismatch branch (compares the scratch buffers): "a" against "1" reads
+   uninitialised cells *)
+Theorem C17_orig_mismatch_refuted : vercmp_gen true false [97] [49] = Fault Uninit_read.
 Proof. vm_compute. reflexivity. Qed.
-Example C17_ex_orig_mismatch_uninit : vercmp_gen true false [97] [49] = Fault Uninit_read.
+Print Assumptions C17_orig_mismatch_refuted.
+
+(* ---- non-vacuity and samples ---- *)
+Example C17_ex_hyps : Forall is_digits [[49]; [50; 55]; [51]] /\ is_word pre /\ sep [49; 46; 48] pre /\ noalpha [50].
+Proof.
+  split; [|split; [|split]].
+  - repeat (constructor; [split; [discriminate | reflexivity]|]). constructor.
+  - split; [discriminate | reflexivity].
+  - right; right. reflexivity.
+  - right. reflexivity.
+Qed.
+Example C17_ex_pre_below_bare : vercmp [49; 46; 48; 112; 114; 101; 50] [49; 46; 48] = Ok Lt.      (* 1.0pre2 < 1.0 *)
 Proof. vm_compute. reflexivity. Qed.
-Example C17_ex_orig_overflow : vercmp_gen false true (repeat 97 128) (repeat 97 128) = Fault OOB_write.
+Example C17_ex_rc_above_bare : vercmp [57; 46; 57] [57; 46; 57; 114; 99; 49] = Ok Lt.             (* 9.9 < 9.9rc1 *)
 Proof. vm_compute. reflexivity. Qed.
+Example C17_ex_numeric : vercmp [48; 46; 49; 48] [48; 46; 57; 46; 50] = Ok Gt.                    (* 0.10 > 0.9.2 *)
+Proof. vm_compute. reflexivity. Qed.
+Example C17_ex_big : vercmp (repeat 57 20) [49] = Ok Gt /\ vercmp [50;49;52;55;52;56;51;54;52;56] [48] = Ok Gt.
+Proof. vm_compute. split; reflexivity. Qed.                                                      (* 99999999999999999999 > 1, 2147483648 > 0 *)
+Example C17_ex_long_runs : vercmp (repeat 97 300) (repeat 97 300 ++ [46; 49]) = Ok Lt.
+Proof. vm_compute. reflexivity. Qed.
+(* the relation is not transitive (class-mismatch rule): 1.0pre2 < 1.0 < 1.0.1 but 1.0pre2 > 1.0.1 *)
+Example C17_ex_not_transitive :
+  vercmp [49;46;48;112;114;101;50] [49;46;48] = Ok Lt /\ vercmp [49;46;48] [49;46;48;46;49] = Ok Lt /\
+  vercmp [49;46;48;112;114;101;50] [49;46;48;46;49] = Ok Gt.
+Proof. vm_compute. repeat split; reflexivity. Qed.
